@@ -2921,7 +2921,12 @@ def kind_enum_base(prog: Program) -> RuleResult:
         cls = prog.cls(MODEL, cname)
         bases = [dotted(b) or short(b) for b in cls.bases]
         construct = f"{MODEL}:{cname}/identity-equality"
-        if bases and all(b.split(".")[-1] == "Enum" for b in bases):
+        values = [st.value for st in cls.body if isinstance(st, ast.Assign) and len(st.targets) == 1 and isinstance(st.targets[0], ast.Name)]
+        consts = [ast.dump(v) for v in values if not (isinstance(v, ast.Call) and dotted(v.func) in ("auto", "enum.auto"))]
+        dup = sorted({unparse(v) for v in values if consts.count(ast.dump(v)) > 1})
+        if dup:
+            res.fail(construct, f"two members of {cname} are given the same value {dup[0]}: the second is an ALIAS of the first, so a cost vector has one entry for both events", mod, cls)
+        elif bases and all(b.split(".")[-1] == "Enum" for b in bases):
             res.ok(construct, "plain Enum")
         else:
             res.fail(construct, f"{cname} derives from {bases}: its members compare by value, so kinds of the two enumerations with the same number are confused", mod, cls)
@@ -3012,6 +3017,29 @@ def eval_no_shortcut(prog: Program) -> RuleResult:
                 res.fail(construct, f"`{short(early[0])}` {early[1]}", mod, early[0])
             else:
                 res.ok(construct, "every conditional return is selected by the node's event")
+    # the kind of a node is what node_event says, whatever the prices: the event local is bound once, and no test of
+    # the evaluator reads the cost vector
+    for cname, meths in (("ReconciliationOutput", ("_cost_rec",)), ("SuperReconciliationOutput", ("_ordered_labeling_cost", "_unordered_labeling_cost"))):
+        cls = prog.cls(MODEL, cname)
+        for mname in meths:
+            fn = method_def(cls, mname)
+            if fn is None:
+                continue
+            construct = f"{MODEL}:{cname}.{mname}/kind-from-node-event"
+            events = {t.id for st in walk_no_nested(fn) if isinstance(st, ast.Assign) and isinstance(st.value, ast.Call) and isinstance(st.value.func, ast.Attribute) and st.value.func.attr == "node_event" for t in st.targets if isinstance(t, ast.Name)}
+            rebound = [st for st in walk_no_nested(fn) if isinstance(st, (ast.Assign, ast.AugAssign)) and any(isinstance(t, ast.Name) and t.id in events for t in (st.targets if isinstance(st, ast.Assign) else [st.target])) and not (isinstance(st, ast.Assign) and isinstance(st.value, ast.Call) and isinstance(st.value.func, ast.Attribute) and st.value.func.attr == "node_event")]
+            cost_names = {"costs"} | {t.id for st in walk_no_nested(fn) if isinstance(st, ast.Assign) and any(isinstance(x, ast.Attribute) and x.attr == "costs" for x in ast.walk(st.value)) for t in st.targets if isinstance(t, ast.Name)}
+            priced_tests = []
+            for node in walk_no_nested(fn):
+                test = node.test if isinstance(node, (ast.If, ast.IfExp, ast.While)) else None
+                if test is not None and any((isinstance(x, ast.Name) and x.id in cost_names) or (isinstance(x, ast.Attribute) and x.attr == "costs") for x in ast.walk(test)):
+                    priced_tests.append(test)
+            if rebound:
+                res.fail(construct, f"`{short(rebound[0], 70)}` re-reads the event of a node: the evaluator prices the kind that node_event assigns", mod, rebound[0])
+            elif priced_tests:
+                res.fail(construct, f"the test `{short(priced_tests[0], 70)}` makes the classification depend on the prices: which event a node is does not change with the cost vector", mod, priced_tests[0])
+            else:
+                res.ok(construct, "the event is read once and no test depends on the costs")
     # the totals are exactly the sums of the documented parts: cost() of a reconciliation is the recount from the
     # root of the object tree, cost() of a super-reconciliation adds the labelling cost - no further term
     from ..sym import Normaliser, Poly
@@ -3938,7 +3966,200 @@ def varargs_as_given(prog: Program) -> RuleResult:
     return res
 
 
+# ---------------------------------------------------------------------------
+# TABLE-ENTRY-POLICIES, TABLE-KEY-OPAQUE
+
+
+def table_entry_policies(prog: Program) -> RuleResult:
+    res = RuleResult(
+        "TABLE-ENTRY-POLICIES",
+        "every entry that `Table.entry` hands out carries BOTH policies of the table: each `Entry(...)` it returns is "
+        "given `self.merge_policy` and `self.retention_policy` (an explicitly seeded entry without the retention "
+        "policy falls back to NONE and forgets the tags of later optimal candidates)",
+    )
+    mod = prog.module(DP)
+    cls = prog.cls(DP, "Table")
+    fn = method_def(cls, "entry")
+    if fn is None:
+        raise AnalysisError("Table.entry not found")
+    ctors = [c for r in walk_no_nested(fn) if isinstance(r, ast.Return) and r.value is not None for c in ast.walk(r.value) if isinstance(c, ast.Call) and dotted(c.func) == "Entry"]
+    if not ctors:
+        raise AnalysisError("Table.entry: no Entry(...) returned")
+    for k, c in enumerate(ctors):
+        construct = f"{DP}:Table.entry/policies#{k}"
+        given = {dotted(a) for a in c.args} | {dotted(kw.value) for kw in c.keywords}
+        missing = [p for p in ("self.merge_policy", "self.retention_policy") if p not in given]
+        if missing:
+            res.fail(construct, f"`{short(c, 70)}` is not given {missing}: the entry falls back to the default policy instead of the table's", mod, c)
+        else:
+            res.ok(construct, "both policies of the table")
+    return res
+
+
+def table_key_opaque(prog: Program) -> RuleResult:
+    res = RuleResult(
+        "TABLE-KEY-OPAQUE",
+        "`Table.__getitem__` / `__setitem__` use the key they are given as ONE key: no test on its type, no unpacking "
+        "(a tuple is a legitimate key of a dictionary dimension; `table[i, j]` as a shorthand for `table[i][j]` makes "
+        "`('x',)` an alias of `'x'`)",
+    )
+    mod = prog.module(DP)
+    cls = prog.cls(DP, "Table")
+    n = 0
+    for mname in ("__getitem__", "__setitem__"):
+        fn = method_def(cls, mname)
+        if fn is None:
+            continue
+        n += 1
+        key = [p for p in func_params(fn) if p != "self"][0]
+        construct = f"{DP}:Table.{mname}/key-as-given"
+        typed = [c for c in walk_no_nested(fn) if isinstance(c, ast.Call) and dotted(c.func) in ("isinstance", "type") and c.args and dotted(c.args[0]) == key]
+        unpacked = [x for x in walk_no_nested(fn) if (isinstance(x, ast.Starred) and dotted(x.value) == key) or (isinstance(x, (ast.For, ast.comprehension)) and dotted(x.iter) == key)]
+        if typed:
+            res.fail(construct, f"`{short(typed[0])}` treats some keys differently from others", mod, typed[0])
+        elif unpacked:
+            res.fail(construct, "the key is unpacked into several indices", mod, unpacked[0] if hasattr(unpacked[0], "lineno") else fn)
+        else:
+            res.ok(construct, f"`{key}` is one key")
+    if n < 2:
+        raise AnalysisError("TABLE-KEY-OPAQUE: Table.__getitem__ / __setitem__ not found")
+    return res
+
+
+# ---------------------------------------------------------------------------
+# PROTOCOL-ONLY
+
+PROTOCOL_METHODS = {
+    "Sequence": {"index", "count"},
+    "Iterable": set(),
+    "Iterator": set(),
+    "Collection": set(),
+    "Mapping": {"get", "items", "keys", "values"},
+    "AbstractSet": {"isdisjoint"},
+}
+
+
+def protocol_only(prog: Program) -> RuleResult:
+    res = RuleResult(
+        "PROTOCOL-ONLY",
+        "a parameter annotated with an abstract container (`Sequence`, `Iterable`, `Mapping`, ...) is used through that "
+        "protocol only: calling `.copy()`, `.append()`, `.sort()` ... on it works for lists and fails (AttributeError) "
+        "for the tuples, strings and ranges the signature promises to accept",
+    )
+    n = 0
+    for mod in sorted(prog.modules.values(), key=lambda m: m.relpath):
+        key = _modkey(mod)
+        for qual, fn in prog.defs(mod.name).items():
+            if not isinstance(fn, FuncNode):
+                continue
+            for arg in fn.args.args + fn.args.kwonlyargs:
+                ann = unparse(arg.annotation) if arg.annotation is not None else ""
+                head = ann.split("[")[0].split(".")[-1]
+                if head not in PROTOCOL_METHODS:
+                    continue
+                rebound = any(isinstance(x, ast.Name) and x.id == arg.arg and isinstance(x.ctx, ast.Store) for x in ast.walk(fn))
+                if rebound:
+                    continue
+                n += 1
+                construct = f"{key}:{qual}/protocol[{arg.arg}: {head}]"
+                bad = [
+                    c for c in walk_no_nested(fn)
+                    if isinstance(c, ast.Call) and isinstance(c.func, ast.Attribute) and isinstance(c.func.value, ast.Name) and c.func.value.id == arg.arg
+                    and c.func.attr not in PROTOCOL_METHODS[head] and not c.func.attr.startswith("__")
+                ]
+                if bad:
+                    res.fail(construct, f"`{short(bad[0], 60)}`: `{bad[0].func.attr}` is not part of {head}; a tuple, a string or a range given for `{arg.arg}` raises AttributeError", mod, bad[0])
+                else:
+                    res.ok(construct, f"used as a {head}")
+    if n < 10:
+        raise AnalysisError(f"PROTOCOL-ONLY: only {n} parameters with an abstract container annotation found")
+    return res
+
+
+# ---------------------------------------------------------------------------
+# SUPERTREE-DELEGATES
+
+
+def supertree_delegates(prog: Program) -> RuleResult:
+    res = RuleResult(
+        "SUPERTREE-DELEGATES",
+        "`supertree` and `all_supertrees` are the triple decomposition followed by OneTree / AllTrees and nothing "
+        "else: the trees they are given are handed to `trees_to_triples` as they are (materialising the iterable is "
+        "fine, dropping or pre-judging trees is not), and the only answer is the one of the triple routine",
+    )
+    mod = prog.module(TREES)
+    for qual, callee in (("supertree", "tree_from_triples"), ("all_supertrees", "all_trees_from_triples")):
+        fn = prog.func(TREES, qual)
+        p_trees = func_params(fn)[0]
+        construct = f"{TREES}:{qual}/delegates"
+        rets = [r for r in walk_no_nested(fn) if isinstance(r, ast.Return)]
+        final = [r for r in rets if isinstance(r.value, ast.Call) and dotted(r.value.func) == callee]
+        other = [r for r in rets if r not in final]
+        rebinds = [
+            st for st in walk_no_nested(fn)
+            if isinstance(st, (ast.Assign, ast.AugAssign)) and any(dotted(t) == p_trees for t in (st.targets if isinstance(st, ast.Assign) else [st.target]))
+            and not (isinstance(st, ast.Assign) and isinstance(st.value, ast.Call) and dotted(st.value.func) in ("list", "tuple") and len(st.value.args) == 1 and dotted(st.value.args[0]) == p_trees)
+        ]
+        fed = [c for c in ast.walk(fn) if isinstance(c, ast.Call) and dotted(c.func) == "trees_to_triples"]
+        if len(final) != 1 or not fed:
+            raise AnalysisError(f"{qual}: delegation to {callee}(*trees_to_triples(...)) not found")
+        if other:
+            res.fail(construct, f"`{short(other[0], 60)}` answers without asking {callee}: whether trees are compatible is decided by their triples, not by a comparison of their shapes or sizes", mod, other[0])
+        elif rebinds:
+            res.fail(construct, f"`{short(rebinds[0], 80)}` replaces the trees that were given: a tree left out takes its triples (its constraints) with it", mod, rebinds[0])
+        elif not (fed[0].args and dotted(fed[0].args[0]) == p_trees):
+            res.fail(construct, f"trees_to_triples is given `{short(fed[0].args[0] if fed[0].args else fed[0], 60)}`, not the trees of the call", mod, fed[0])
+        else:
+            res.ok(construct, f"{callee}(*trees_to_triples({p_trees}))")
+    return res
+
+
+# ---------------------------------------------------------------------------
+# WRAP-FINAL-TEXT
+
+
+def wrap_final_text(prog: Program) -> RuleResult:
+    res = RuleResult(
+        "WRAP-FINAL-TEXT",
+        "`format_synteny` wraps the text that is displayed: what `balanced_wrap` receives is the finished label (the "
+        "families joined with `', '`), and what it returns is returned as it is - separators inserted after the "
+        "wrapping make every line longer than the width it was checked against",
+    )
+    mod = prog.module("model.synteny")
+    fn = prog.func("model.synteny", "format_synteny")
+    calls = [c for c in walk_no_nested(fn) if isinstance(c, ast.Call) and dotted(c.func) == "balanced_wrap"]
+    if not calls:
+        raise AnalysisError("format_synteny: call of balanced_wrap not found")
+    construct = "model.synteny:format_synteny/wraps-the-displayed-text"
+    call = calls[0]
+    arg = call.args[0] if call.args else None
+    src = arg
+    if isinstance(arg, ast.Name):
+        got = reaching(fn, arg.id, call)
+        src = got if got is not None and not isinstance(got, Opaque) else arg
+    sep = src.func.value.value if isinstance(src, ast.Call) and isinstance(src.func, ast.Attribute) and src.func.attr == "join" and isinstance(src.func.value, ast.Constant) else None
+    par = mod.parent(call)
+    post = isinstance(par, ast.Attribute) or (isinstance(par, ast.Call) and par is not call and dotted(par.func) not in (None,) and call in par.args)
+    # the wrapped text bound to a local that is then edited
+    if isinstance(par, ast.Assign) and len(par.targets) == 1 and isinstance(par.targets[0], ast.Name):
+        name = par.targets[0].id
+        uses = [x for x in walk_no_nested(fn) if isinstance(x, ast.Name) and x.id == name and isinstance(x.ctx, ast.Load) and x.lineno > par.lineno]
+        post = any(not isinstance(mod.parent(u), ast.Return) for u in uses)
+    if sep != ", ":
+        res.fail(construct, f"balanced_wrap is given `{short(src, 60)}`, which is not the label that is displayed (families joined with ', '): the width is checked against a shorter text", mod, call)
+    elif post:
+        res.fail(construct, f"the wrapped text is edited afterwards (`{short(par, 60)}`): what is displayed is not what was fitted to the width", mod, call)
+    else:
+        res.ok(construct, "the joined label is wrapped and returned as wrapped")
+    return res
+
+
 RULES = {
+    "WRAP-FINAL-TEXT": wrap_final_text,
+    "SUPERTREE-DELEGATES": supertree_delegates,
+    "PROTOCOL-ONLY": protocol_only,
+    "TABLE-ENTRY-POLICIES": table_entry_policies,
+    "TABLE-KEY-OPAQUE": table_key_opaque,
     "UNPACK-SPLIT": unpack_split,
     "RECORD-FIELDS-AGREE": record_fields_agree,
     "PARAM-NOT-REWRITTEN": param_not_rewritten,
